@@ -563,6 +563,67 @@ Section GetK.
   Theorem getk_pieces_agree_at_knots ti ki tj kj tm km : ti < tj -> tj < tm ->
     k_interp RA ti ki tj kj tj = kj /\ k_interp RA tj kj tm km tj = kj.
   Proof. intros H1 H2. split; [apply k_interp_right|apply k_interp_left]; lra. Qed.
+
+  Lemma k_interp_minus_right ti ki tj kj t : ti <> tj ->
+    k_interp RA ti ki tj kj t - kj = (kj - ki) / (tj - ti) * (t - tj).
+  Proof. intros H. unfold k_interp. ra_simpl. field. lra. Qed.
+  Lemma k_interp_minus_left ti ki tj kj t : ti <> tj ->
+    k_interp RA ti ki tj kj t - ki = (kj - ki) / (tj - ti) * (t - ti).
+  Proof. intros H. unfold k_interp. ra_simpl. field. lra. Qed.
+
+  (* continuity of the conductivity at an interior knot of a strictly increasing table *)
+  Theorem getk_continuous_at_knot kx ky pre ti ki tj kj tm km post :
+    let tk := pre ++ (ti, ki) :: (tj, kj) :: (tm, km) :: post in
+    tk_sorted tk ->
+    continuity_pt (fun t => fst (getk RA kx ky tk t)) tj /\
+    continuity_pt (fun t => snd (getk RA kx ky tk t)) tj.
+  Proof.
+    intros tk Hs.
+    assert (Hs1 : tk_sorted ((ti, ki) :: (tj, kj) :: (tm, km) :: post)) by exact (tk_sorted_app_r pre _ Hs).
+    destruct Hs1 as [Hij [Hjm _]].
+    assert (Hs2 : tk_sorted ((pre ++ [(ti, ki)]) ++ (tj, kj) :: (tm, km) :: post))
+      by (rewrite <- app_assoc; exact Hs).
+    assert (Etk : tk = (pre ++ [(ti, ki)]) ++ (tj, kj) :: (tm, km) :: post)
+      by (unfold tk; rewrite <- app_assoc; reflexivity).
+    set (s1 := (kj - ki) / (tj - ti)). set (s2 := (km - kj) / (tm - tj)).
+    assert (Hval : forall t, ti <= t <= tm ->
+              getk RA kx ky tk t = (kj + (if Rle_dec t tj then s1 else s2) * (t - tj),
+                                    kj + (if Rle_dec t tj then s1 else s2) * (t - tj))).
+    { intros t Ht. destruct (Rle_dec t tj) as [Hle|Hgt].
+      - unfold tk. rewrite (getk_on_segment kx ky pre ti ki tj kj ((tm, km) :: post) t Hs) by lra.
+        pose proof (k_interp_minus_right ti ki tj kj t ltac:(lra)) as E. fold s1 in E.
+        replace (k_interp RA ti ki tj kj t) with (kj + s1 * (t - tj)) by lra. reflexivity.
+      - rewrite Etk. rewrite (getk_on_segment kx ky (pre ++ [(ti, ki)]) tj kj tm km post t Hs2) by lra.
+        pose proof (k_interp_minus_left tj kj tm km t ltac:(lra)) as E. fold s2 in E.
+        replace (k_interp RA tj kj tm km t) with (kj + s2 * (t - tj)) by lra. reflexivity. }
+    assert (Hc : forall proj : R * R -> R, (forall v, proj (v, v) = v) ->
+               continuity_pt (fun t => proj (getk RA kx ky tk t)) tj).
+    { intros proj Hproj. unfold continuity_pt, continue_in, limit1_in, limit_in. intros eps Heps.
+      simpl dist. unfold R_dist.
+      set (S := Rabs s1 + Rabs s2 + 1).
+      assert (HS : 0 < S) by (unfold S; pose proof (Rabs_pos s1); pose proof (Rabs_pos s2); lra).
+      exists (Rmin (eps / S) (Rmin (tj - ti) (tm - tj))). split.
+      - apply Rmin_pos; [apply Rdiv_lt_0_compat; lra|apply Rmin_pos; lra].
+      - intros t [_ Hd].
+        assert (Hd1 : Rabs (t - tj) < eps / S) by (eapply Rlt_le_trans; [exact Hd|apply Rmin_l]).
+        assert (Hd2 : Rabs (t - tj) < tj - ti)
+          by (eapply Rlt_le_trans; [exact Hd|]; eapply Rle_trans; [apply Rmin_r|apply Rmin_l]).
+        assert (Hd3 : Rabs (t - tj) < tm - tj)
+          by (eapply Rlt_le_trans; [exact Hd|]; eapply Rle_trans; [apply Rmin_r|apply Rmin_r]).
+        assert (Ht : ti <= t <= tm).
+        { apply Rabs_def2 in Hd2. apply Rabs_def2 in Hd3. lra. }
+        rewrite (Hval t Ht), (Hval tj ltac:(lra)), !Hproj.
+        replace (kj + (if Rle_dec t tj then s1 else s2) * (t - tj) - (kj + (if Rle_dec tj tj then s1 else s2) * (tj - tj)))
+          with ((if Rle_dec t tj then s1 else s2) * (t - tj)) by ring.
+        rewrite Rabs_mult.
+        assert (Hsl : Rabs (if Rle_dec t tj then s1 else s2) <= S).
+        { unfold S. pose proof (Rabs_pos s1). pose proof (Rabs_pos s2). destruct (Rle_dec t tj); lra. }
+        apply Rle_lt_trans with (S * Rabs (t - tj)).
+        + apply Rmult_le_compat_r; [apply Rabs_pos|exact Hsl].
+        + apply Rlt_le_trans with (S * (eps / S)); [apply Rmult_lt_compat_l; assumption|].
+          right. field. lra. }
+    split; [apply (Hc fst)|apply (Hc snd)]; reflexivity.
+  Qed.
 End GetK.
 
 (* ---------------- the weights of the boundary-edge terms ---------------- *)
@@ -699,24 +760,33 @@ Section ConductorFlow.
   Local Notation vgetR := (vget RA).
   Variables (P : hprob (F:=R)).
 
+  (* the divisor ChargeOnConductor applies to the conductivity of an element: the external-region
+     kludge in the repaired variant for elements of the external region, 1 otherwise *)
+  Definition hoc_kludge (extfix : bool) (extRo extRi extZo : R) (el : eelem) : R :=
+    if (extfix && haxi P && nth (elbl el) (hlabel_ext P) false)%bool
+    then ext_kludge RA P extRo extRi extZo el else 1.
+
   (* one element's contribution to ChargeOnConductor is the conduction (Galerkin stiffness)
      reaction of the conductor's nodes in that element, with the conductivity evaluated at
      the temperatures V:  sum_j Pv[n_j] * sum_k K_e[j][k] * V[n_k] *)
-  Theorem conductor_flow_is_stiffness_reaction Depth V Pv Z el :
-    ga (el_geom (eview RA P) el) <> 0 ->
+  Theorem conductor_flow_is_stiffness_reaction extfix extRo extRi extZo Depth V Pv Z el :
+    ga (el_geom (eview RA P) el) <> 0 -> hoc_kludge extfix extRo extRi extZo el <> 0 ->
     let g := el_geom (eview RA P) el in
     let De := if haxi P then 2 * PI * gr g else Depth in
     let kn := kn_of RA P V el in
-    let Ke := fun j k => galerkin_K De (fst kn) (snd kn) g j k in
+    let Ke := fun j k => galerkin_K De (fst kn) (snd kn) g j k / hoc_kludge extfix extRo extRi extZo el in
     let n := fun j => tri_get (ep el) j in
-    hoc_elem RA P Depth V Pv Z el =
+    hoc_elem RA P extfix extRo extRi extZo Depth V Pv Z el =
       Z + (vgetR Pv (n 0%nat) * (Ke 0%nat 0%nat * vgetR V (n 0%nat) + Ke 0%nat 1%nat * vgetR V (n 1%nat) + Ke 0%nat 2%nat * vgetR V (n 2%nat))
          + vgetR Pv (n 1%nat) * (Ke 1%nat 0%nat * vgetR V (n 0%nat) + Ke 1%nat 1%nat * vgetR V (n 1%nat) + Ke 1%nat 2%nat * vgetR V (n 2%nat))
          + vgetR Pv (n 2%nat) * (Ke 2%nat 0%nat * vgetR V (n 0%nat) + Ke 2%nat 1%nat * vgetR V (n 1%nat) + Ke 2%nat 2%nat * vgetR V (n 2%nat))).
   Proof.
-    intros Ha g De kn Ke n. unfold hoc_elem.
+    intros Ha Hkl g De kn Ke n. unfold hoc_elem.
     subst Ke. unfold galerkin_K. subst De kn n. unfold kn_of, cadd. cbv beta.
     cbn [fold_left].
+    unfold hoc_kludge in *.
+    set (ext := (extfix && haxi P && nth (elbl el) (hlabel_ext P) false)%bool) in *.
+    set (klv := ext_kludge RA P extRo extRi extZo el) in *.
     unfold g, el_geom, geom in *. change (nodes (eview RA P)) with (hnodes P) in *.
     set (blk := nth (eblk el) (hblocks P) (dhblock RA)).
     set (n0 := tri_get (ep el) 0) in *. set (n1 := tri_get (ep el) 1) in *. set (n2 := tri_get (ep el) 2) in *.
@@ -731,14 +801,27 @@ Section ConductorFlow.
     set (g1 := getk RA (hkx blk) (hky blk) (htk blk) V1).
     set (g2 := getk RA (hkx blk) (hky blk) (htk blk) V2).
     set (P0 := vgetR Pv n0) in *. set (P1 := vgetR Pv n1) in *. set (P2 := vgetR Pv n2) in *.
-    clearbody g0 g1 g2 P0 P1 P2 V0 V1 V2 x0 x1 x2 y0 y1 y2.
+    clearbody g0 g1 g2 P0 P1 P2 V0 V1 V2 x0 x1 x2 y0 y1 y2 klv ext.
     cbn [ga gp gq gr] in *. unfold vget in *. cbn [nth fst snd] in *. ra_simpl.
     assert (Hda : (y1 - y2) * (x0 - x2) - (y2 - y0) * (x2 - x1) <> 0) by (intro Hz; apply Ha; lra).
     destruct (Reqb P0 0 && Reqb P1 0 && Reqb P2 0)%bool eqn:E.
     - apply andb_true_iff in E. destruct E as [E E2]. apply andb_true_iff in E. destruct E as [E0 E1].
-      apply Reqb_true in E0, E1, E2. rewrite E0, E1, E2. field. exact Hda.
-    - destruct (haxi P); field; exact Hda.
+      apply Reqb_true in E0, E1, E2. rewrite E0, E1, E2.
+      destruct ext; field; try split; try exact Hda; try exact Hkl; lra.
+    - destruct (haxi P); destruct ext; field; try split; try exact Hda; try exact Hkl; lra.
   Qed.
+
+  (* in the repaired variant the divisor is the kludge the assembly divides the conductivity by *)
+  Lemma hoc_kludge_is_assembly_kludge extRo extRi extZo D0 k0 el : haxi P = true ->
+    hoc_kludge true extRo extRi extZo el = snd (elem_dk (eview RA P) extRo extRi extZo D0 k0 el).
+  Proof.
+    intros Hax. unfold hoc_kludge, elem_dk, ext_kludge. cbn [axi eview label_ext nodes].
+    rewrite Hax. cbn [andb]. unfold geom. cbn [gr snd].
+    destruct (nth (elbl el) (hlabel_ext P) false); [|reflexivity]. ra_simpl. reflexivity.
+  Qed.
+  (* as shipped it is 1 whatever the element *)
+  Lemma hoc_kludge_asis extRo extRi extZo el : hoc_kludge false extRo extRi extZo el = 1.
+  Proof. reflexivity. Qed.
 End ConductorFlow.
 
 (* ---------------- rows of free and of prescribed nodes of the assembled system ---------------- *)
